@@ -2,6 +2,6 @@
 # usage: tools/run_mutants.sh <PID> [extra bin/check args]   -> one line per own sensitivity mutation: name + exit code
 PID="$1"; shift
 for f in /verif/mutants/$PID/*.diff; do
-  out=$(/verif/tools/with_patch.sh "$f" bin/check "$PID" "$@" 2>&1); rc=$?
+  out=$(/verif/tools/with_patch.sh "$f" timeout 1200 bin/check "$PID" "$@" 2>&1); rc=$?
   echo "$(basename "$f" .diff): exit=$rc $(echo "$out" | grep -c '^VIOLATION') violation line(s): $(echo "$out" | grep '^VIOLATION' | head -1 | cut -c1-160)"
 done
